@@ -43,14 +43,23 @@ def rule_pitchtables(ctx):
     yield ob(R, f, "chord.pitch_class_to_semitone:mod12", mod, "the result is reduced mod 12 (B# == C, Cb == B)")
     body = t.a[1] if mod else t
     sharp = flat = base = False
+    # read from the update sites: `+= 1` where the current character is '#', `-= 1` where it is 'b' (whatever the
+    # arrangement of the tests around them), and the letter looked up in PITCH_CLASSES
+    from .common import facts as _facts
+
+    for m in s.by_kind("mutate"):
+        if m.how != "aug" or not tm.is_const(m.val, 1):
+            continue
+        op = m.key.a[0] if m.key is not None and m.key.op == "const" else None
+        chars = set()
+        for c, pol in _facts(m.pc):
+            if symeval.holds(c, pol, "==") and any(z.op == "const" and z.a[0] in ("#", "b") for z in c.a[1:]) and any(z.op == "iter" for z in c.a[1:]):
+                chars.add([z.a[0] for z in c.a[1:] if z.op == "const"][0])
+        if chars == {"#"} and op == "+":
+            sharp = True
+        if chars == {"b"} and op == "-":
+            flat = True
     for x in tm.walk(body):
-        if x.op == "ite":
-            c = x.a[0]
-            txt = tm.show(c, 4)
-            if "'#'" in txt and x.a[1].op == "bin" and x.a[1].a[0] == "+" and any(tm.is_const(z, 1) for z in (x.a[1].a[1], x.a[1].a[2])):
-                sharp = True
-            if "'b'" in txt and x.a[1].op == "bin" and x.a[1].a[0] == "-" and tm.is_const(x.a[1].a[2], 1):
-                flat = True
         if x.op == "call" and call_name(x) == ".get" and x.a[1][0].op == "glob" and x.a[1][0].a[0] == "chord.PITCH_CLASSES":
             base = True
     yield ob(R, f, "chord.pitch_class_to_semitone:accidentals", sharp and flat and base, "each '#' adds 1, each 'b' subtracts 1, the letter comes from PITCH_CLASSES")
